@@ -44,6 +44,26 @@ Example venn_unaligned_chunking_changes_regions :
   venn {| v_xbin := 4; v_ybin := 2; v_nchan := 8; v_chunk := 3 |} [[(3,0)]; [(4,0)]] = Some [0; 0; 1].
 Proof. vm_compute. split; reflexivity. Qed.
 
+(* Whole-dictionary invariance: two chunk sizes that are both multiples of the time bin give the SAME
+   region counts (not only the same per-sorter sums), for 2 or 3 sorters and any trains with samples >= 0.
+   (For chunk sizes that are not multiples of the bin the counts may differ: example above.) *)
+Theorem C20_venn_chunk_invariant_aligned :
+  forall (xbin ybin nchan q1 q2 : Z) (trains : list (list spike)) (r1 r2 : list Z) (n : Z),
+  0 < xbin -> 0 < q1 -> 0 < q2 -> 0 <= nscale nchan ybin ->
+  n = Z.of_nat (length trains) -> n = 2 \/ n = 3 ->
+  (forall t sp, In t trains -> In sp t -> 0 <= fst sp) ->
+  venn {| v_xbin := xbin; v_ybin := ybin; v_nchan := nchan; v_chunk := q1 * xbin |} trains = Some r1 ->
+  venn {| v_xbin := xbin; v_ybin := ybin; v_nchan := nchan; v_chunk := q2 * xbin |} trains = Some r2 ->
+  r1 = r2.
+Proof. exact venn_chunk_invariant_aligned. Qed.
+Print Assumptions C20_venn_chunk_invariant_aligned.
+
+Example venn_aligned_example :
+  let tr := [[(0,0); (5,1); (13,2); (13,2); (40,3)]; [(1,0); (5,0); (13,2); (14,2)]] in
+  venn {| v_xbin := 4; v_ybin := 2; v_nchan := 8; v_chunk := 1 * 4 |} tr = Some [0; 1; 4] /\
+  venn {| v_xbin := 4; v_ybin := 2; v_nchan := 8; v_chunk := 5 * 4 |} tr = Some [0; 1; 4].
+Proof. vm_compute. split; reflexivity. Qed.
+
 (* ---------------------------------------------------------------------------
    2. voltage.stack: one row per distinct label, labels in strictly increasing
    order; row k is the aggregate of exactly the traces carrying label k (in their
